@@ -589,6 +589,13 @@ MUTANTS = [
     M("benign-L6-3-lazylock-regexes", ["C05", "C06", "C09", "C10", "C17"], base="L6-3", benign=True),
     M("L6-3-weight-above-one", ["C10", "C05"], (TK, 'r"(:(0(\\.[0-9]+)?|1(\\.0+)?))?"', 'r"(:(0(\\.[0-9]+)?|1(\\.[0-9]+)?))?"'), base="L6-3"),
     M("L6-3-unanchored", ["C09"], (TK, 'concat!("^", $($fragment,)+ weight!(), "$")', 'concat!("", $($fragment,)+ weight!(), "$")'), base="L6-3"),
+    M("benign-L1-2-fused-flush", ["C01", "C07", "C08"], base="L1-2", benign=True),
+    M("L1-2-threshold-4", ["C01", "C07"], (MH, ".position(|&count| count >= 5)", ".position(|&count| count >= 4)"), base="L1-2"),
+    M("L1-2-weight-off", ["C01", "C07"], (MH, "suit_hashes[suit_index] += 1 << (12 - u8::from(card.rank()));", "suit_hashes[suit_index] += 1 << (11 - u8::from(card.rank()) % 12);"), base="L1-2"),
+    M("L1-2-wrong-key-slot", ["C01", "C07"], (MH, "        .map(|suit_index| suit_hashes[suit_index])", "        .map(|suit_index| suit_hashes[(suit_index + 1) % 4])"), base="L1-2"),
+    M("L1-2-hash-by-rank-index", ["C01", "C07"], (MH, "        suit_hashes[suit_index] += 1 << (12 - u8::from(card.rank()));", "        suit_hashes[(suit_index + 1) % 4] += 1 << (12 - u8::from(card.rank()));"), base="L1-2"),
+    M("benign-I1-4-fused-flush-match", ["C01", "C07", "C08"], base="I1-4", benign=True),
+    M("I1-4-weight-swapped", ["C01", "C07"], (MH, "            Rank::King => 0b100000000000,\n            Rank::Queen => 0b10000000000,", "            Rank::King => 0b10000000000,\n            Rank::Queen => 0b100000000000,"), base="I1-4"),
     M("benign-F3-3-computed-flush-weight", ["C01", "C07", "C08"], base="F3-3", benign=True),
     M("F3-3-unreversed", ["C01", "C07"], (MH, "1 << (12 - u8::from(card.rank()))", "1 << u8::from(card.rank())"), base="F3-3"),
     M("F3-3-off-by-one", ["C01", "C07"], (MH, "1 << (12 - u8::from(card.rank()))", "1 << (13 - u8::from(card.rank()))"), base="F3-3"),
